@@ -25,6 +25,7 @@ struct Counters {
     len_field: u64,
     dissolved: u64,
     dissolved_refused: u64,
+    other_cause: u64,
 }
 
 fn judge(orig_len: usize, mutant: &[u8], what: &dyn Fn() -> String, cn: &mut Counters, st: &mut Stats, touched_len_field: bool) -> TestResult {
@@ -48,6 +49,18 @@ fn judge(orig_len: usize, mutant: &[u8], what: &dyn Fn() -> String, cn: &mut Cou
     }
     match reference {
         RefParse::Reject(causes) => {
+            // C09 demands rejection where the CRC relation (or the length field it covers) is
+            // what is violated; mutants that are malformed for other reasons only are C02's business
+            let crc_cause = causes.iter().any(|c| {
+                matches!(
+                    c,
+                    refstun::Cause::FingerprintMismatch | refstun::Cause::BadFingerprintLen | refstun::Cause::Excess { .. } | refstun::Cause::ShortBody { .. }
+                )
+            });
+            if !crc_cause {
+                cn.other_cause += 1;
+                return Ok(());
+            }
             ensure!(
                 !lib_ok,
                 "c09-accepted-corrupt",
@@ -116,6 +129,7 @@ fn test(c: &Case, st: &mut Stats) -> TestResult {
         len_field: 0,
         dissolved: 0,
         dissolved_refused: 0,
+        other_cause: 0,
     };
     let n = built.len();
     let nbits = n * 8;
@@ -233,6 +247,7 @@ fn test(c: &Case, st: &mut Stats) -> TestResult {
     st.class_n("mutants of the length field", cn.len_field);
     st.class_n("mutants that dissolved the FINGERPRINT (accepted by the reference)", cn.dissolved);
     st.class_n("dissolved mutants the library refuses (not asserted)", cn.dissolved_refused);
+    st.class_n("mutants malformed for reasons other than the CRC / length relation (not asserted)", cn.other_cause);
     st.sample("message", 3, || spec.summary());
     Ok(())
 }
@@ -241,7 +256,7 @@ pub fn run(ctx: &Ctx) -> EvidenceMeta {
     let deep = !ctx.quick();
     ctx.proptest(
         "fingerprint-mutants",
-        ctx.n(300, 20_000),
+        ctx.n(300, 12_000),
         move || {
             (gen::msg_spec(gen::seal_strategy(false, true), 4, 0), any::<u64>()).prop_map(move |(mut spec, seed)| {
                 // keep most messages small so that the mutation sets are complete
